@@ -98,7 +98,20 @@ def score_ok(measure, n, m, o, score):
     raise ValueError(measure)
 
 
+_LEV = {}
+
+
 def levenshtein(a, b):
+    k = (a, b)
+    r = _LEV.get(k)
+    if r is None:
+        r = _levenshtein(a, b)
+        if len(_LEV) < 400000:
+            _LEV[k] = r
+    return r
+
+
+def _levenshtein(a, b):
     if a == b:
         return 0
     la, lb = len(a), len(b)
